@@ -368,6 +368,27 @@ def parse_items(toks, top):
             rules.append(r)
             order.append(("r", len(rules) - 1))
             continue
+        if not top and k == "ident" and toks[i][1].startswith("--"):
+            q = i + 1
+            while q < n and toks[q][0] in ("ws", "comment"):
+                q += 1
+            if q < n and toks[q][0] == "colon":
+                # custom property: the value may contain {} blocks; runs to the next top-level ';'
+                depth = 0
+                j = q + 1
+                while j < n:
+                    kk = toks[j][0]
+                    if kk in ("(", "[", "{"):
+                        depth += 1
+                    elif kk in (")", "]", "}"):
+                        depth -= 1
+                    elif kk == "semicolon" and depth == 0:
+                        break
+                    j += 1
+                decls.append((toks[i][1], _strip(toks[q + 1:j])))
+                order.append(("d", len(decls) - 1))
+                i = j + 1
+                continue
         # declaration or qualified rule: decide by which of ';' / '{' / '}' comes first
         j, what = _find_block_or_semicolon(toks, i)
         if what == "{" and not (not top and _looks_like_declaration(toks[i:j]) and False):
